@@ -9,6 +9,7 @@ from .. import core, gen
 from ..lib import load
 
 ID = "C19"
+PRELUDE_EVERY = 0    # this workload owns the process-global tolerance; no prelude cases
 HASH_ADMISSION = False       # the catalogue keeps every hashed quantity >= 7% of a step from a boundary by construction
 BUDGET = {"quick": 4800, "thorough": 128000}
 SOFT = {"quick": 70, "thorough": 560}
@@ -48,6 +49,7 @@ def required_cells(tier):
     req["clause:4E-unequal"] = 100
     req["clause:restore"] = 100
     req["history:objects-used-under-another-eps-first"] = 100
+    req["history:object-built-before-the-tolerance-change"] = 100
     return req
 
 
@@ -79,7 +81,7 @@ def cases(rng, budget, widx, nworkers, tier):
         kind = KINDS[(i // len(EXPS)) % len(KINDS)]
         yield {"hist": hist, "final": final, "E": e, "kind": kind, "frame": rng.choice(list(FRAMES)),
                "o": [rng.randint(-16, 16) for _ in range(3)], "which": rng.randint(0, 50), "axis": rng.randint(0, 2),
-               "div": rng.choice((1000, 1000, 100)), "sign": rng.choice((1, -1)), "pretouch": rng.random() < 0.4}
+               "div": rng.choice((1000, 1000, 100)), "sign": rng.choice((1, -1)), "pretouch": rng.random() < 0.4, "early": rng.random() < 0.3}
 
 
 # ---- catalogue
@@ -198,6 +200,18 @@ def judge(case):
         if G.get_eps() != 1e-10 or G.get_sig_figures() != 10:
             mu.fail("defaults-wrong", "after set_eps(): eps=%r sig=%r" % (G.get_eps(), G.get_sig_figures()))
         prev = (1e-10, 10)
+        kind = case["kind"]
+        early = None
+        if case.get("early"):
+            # the unperturbed object already exists (built and used under the default tolerance)
+            # when the tolerance is changed: it must behave like one built afterwards
+            early = _build(G, kind, _coords(case))
+            try:
+                hash(early), early == early
+                for p_ in _points_of(G, kind, _coords(case))[:2]:
+                    p_ in early
+            except Exception:
+                pass
         for op in case["hist"] + [case["final"]]:
             prev_before = prev
             want = _apply(G, op)
@@ -227,7 +241,9 @@ def judge(case):
         if realised == 0 or abs(realised - delta) > abs(delta) * 0.05:
             _diag["trivial_perturbations"] += 1
             return core.not_admitted("trivial-perturbation")
-        A = _build(G, kind, vals)
+        A = early if early is not None else _build(G, kind, vals)
+        if early is not None:
+            mu.cell("history:object-built-before-the-tolerance-change")
         B = _build(G, kind, valsB)
         if case.get("pretouch"):
             # the same instances are first compared / hashed under the default tolerance: what they
